@@ -28,7 +28,7 @@ class Unsupported(Exception):
 # kinds: 'int' 'bool' 'str' 'list' 'dict' 'mv' 'coef' 'fun' 'alg' 'tuple' 'opt:<kind>' 'signs' None(unknown)
 class T:
     """a translation target"""
-    def __init__(self, file, qual, lean, params, ret, locals=None, tparams='', uses_alg=False, coef=False, self_name=None, uses_ops=False, uses_mops=False, consts=None, state=None, externals=None, drop_assign=(), env=None, state_type=None, region=None, self_locals=(), strkey=()):
+    def __init__(self, file, qual, lean, params, ret, locals=None, tparams='', uses_alg=False, coef=False, self_name=None, uses_ops=False, uses_mops=False, consts=None, state=None, externals=None, drop_assign=(), env=None, state_type=None, region=None, self_locals=(), strkey=(), extra_params=()):
         self.file, self.qual, self.lean = file, qual, lean
         self.params = params          # list of (pyname, leantype, kind)
         self.ret = ret
@@ -40,6 +40,8 @@ class T:
         self.uses_mops = uses_mops    # gets an `(ops : MatOps μ)` parameter: numpy's matrix operations
         self.uses_ops = uses_ops      # gets an `(ops : Ops α)` parameter: the algebra's operators on multivectors
         self.elem_kind = {}
+        self.extra_params = list(extra_params)   # what `self` carries besides the algebra (e.g. the keys of a multivector)
+        self.is_property = False      # a cached_property: read as an attribute
         self.items_kinds = {}         # dict variable -> 'keykind,valuekind' of its items
         self.region = region          # translate only the `if <region>:` statement of the function, as a function of its own
         self.self_locals = set(self_locals)  # `self.<name>` read/written in the region: parameters / locals / results
@@ -106,6 +108,13 @@ TARGETS = [
       locals={'num': (MV, 'mv')}, tparams=COEF, uses_alg=True, uses_ops=True, consts={'symbolic': True}, self_name='alg'),
     T('kingdon/algebra.py', 'Algebra._blade2canon', 'blade2canon', [('basis_blade', 'List Char', 'str')], 'List Char × Int',
       uses_alg=True, self_name='self', locals={'bin': ('Int', 'int')}),
+    # ---- names of generated functions (multivector.py): type_number / type_name ----
+    T('kingdon/multivector.py', 'MultiVector.type_number', 'type_number', [], 'Int', uses_alg=True, self_name='self',
+      externals={'self.keys()': ('keys', 'list:int'), 'self.algebra.canon2bin.values()': ('(Py.dictValues alg.canon2bin)', 'list:int')},
+      extra_params=[('keys', 'List Int')]),
+    T('kingdon/multivector.py', 'MultiVector.type_name', 'type_name', [], 'List Char', uses_alg=True, self_name='self',
+      externals={'self.keys()': ('keys', 'list:int'), 'self.algebra.canon2bin.values()': ('(Py.dictValues alg.canon2bin)', 'list:int')},
+      extra_params=[('keys', 'List Int')], locals={'keys': ('List Int', 'list:int')}),
     # ---- the naming part of Algebra.__post_init__: one region of the method as a function ----
     T('kingdon/algebra.py', 'Algebra.__post_init__', 'post_init_names',
       [('basis', 'List (List Char)', 'list:str'), ('d', 'Int', 'int'), ('start_index', 'Int', 'int')],
@@ -142,6 +151,8 @@ TARGETS = [
                  'MultiVector.fromkeysvalues(self.algebra, keys=keys_out, values=values_out)': ('(keys_out, values_out)', 'tuple')}),
 ]
 for _t in TARGETS:
+    if _t.lean in ('type_number', 'type_name'):
+        _t.is_property = True
     if _t.lean == 'post_init_names':
         _t.ret_names = ['start_index', 'canon2bin', 'bin2canon']
         _t.items_kinds = {'canon2bin': 'str,int', 'bin2canon': 'int,str'}
@@ -496,6 +507,8 @@ class Tr:
             self.kinds = saved
             return f'(fun {" ".join(args)} => {body})', 'fun'
         if isinstance(node, ast.Attribute):
+            if isinstance(node.value, ast.Name) and node.value.id == 'self' and node.attr in BY_PY and BY_PY[node.attr].is_property:
+                return self.call_target(BY_PY[node.attr], [], {})
             if self.is_alg(node):
                 return 'alg', 'alg'
             if self.is_alg(node.value):
@@ -515,6 +528,8 @@ class Tr:
                 if attr == 'pss' and self.t.uses_ops:
                     return 'ops.pss', 'mv'
                 raise Unsupported(f'algebra attribute {attr}')
+            if isinstance(node.value, ast.Name) and node.value.id == 'self' and node.attr in BY_PY and BY_PY[node.attr].is_property:
+                return self.call_target(BY_PY[node.attr], [], {})
             if node.attr == 'T':
                 v, kv = self.E(node.value)
                 return f'(ops.transpose {v})', 'mat'
@@ -738,6 +753,18 @@ class Tr:
                 return f'(Py.len {self.E(args[0])[0]})', 'int'
             if n == 'abs' and len(args) == 1:
                 return f'(Py.abs {self.E(args[0])[0]})', 'int'
+            if n == 'int' and len(args) == 2 and isinstance(args[1], ast.Constant) and args[1].value == 2 and not kw:
+                return f'(← Py.intOfBin {self.E(args[0])[0]})', 'int'
+            if n == 'reversed' and len(args) == 1 and not kw:
+                c0, k0 = self.E(args[0])
+                return f'(List.reverse {c0})', k0
+            if n == 'str' and len(args) == 1 and not kw:
+                c0, k0 = self.E(args[0])
+                if k0 == 'int':
+                    return f'(Py.strOfInt {c0})', 'str'
+                raise Unsupported('str() of this kind')
+            if n == 'tuple' and len(args) == 1 and not kw:
+                return self.E(args[0])
             if n == 'int' and len(args) == 1 and isinstance(kw.get('base'), ast.Constant) and kw['base'].value == 16:
                 return f'(← Py.hexDigit {self.E(args[0])[0]})', 'int'
             if n == 'product' and len(args) == 2 and not kw:
@@ -799,6 +826,12 @@ class Tr:
             if f.attr == 'count' and isinstance(f.value, ast.Call) and isinstance(f.value.func, ast.Name) and f.value.func.id == 'bin' \
                     and len(args) == 1 and isinstance(args[0], ast.Constant) and args[0].value == '1':
                 return f'(Py.popcount {self.E(f.value.args[0])[0]})', 'int'
+            if f.attr == 'join' and isinstance(f.value, ast.Constant) and f.value.value != '' and len(args) == 1:
+                c0, k0 = self.E(args[0])
+                sep = '[' + ', '.join(f"'{ch}'" for ch in f.value.value) + ']'
+                if k0 == 'list:str':
+                    return f'(Py.joinStr {sep} {c0})', 'str'
+                raise Unsupported('join of this kind')
             if f.attr == 'join' and isinstance(f.value, ast.Constant) and f.value.value == '' and len(args) == 1:
                 c0, k0 = self.E(args[0])
                 if k0 == 'list:str':
@@ -856,6 +889,8 @@ class Tr:
             given[k] = v
         out = []
         pk = {p: k for p, _, k in tgt.params}
+        if (tgt.env or tgt.self_name == 'self') and names[:1] == ['self']:
+            names = names[1:]
         if [n_ for n_ in names if n_ not in tgt.consts] != [p for p, _, _ in tgt.params]:
             raise Unsupported(f'signature of {tgt.qual} changed: {names}')
         for nme in names:
@@ -878,7 +913,9 @@ class Tr:
         a = 'alg ' if tgt.uses_alg else ''
         if tgt.uses_ops or tgt.uses_mops:
             a += 'ops '
-        return f'(← {tgt.lean} {a}' + ' '.join(out) + ')', ('mv' if tgt.ret == MV else None)
+        for p_, _ in tgt.extra_params:
+            a += p_ + ' '
+        return f'(← {tgt.lean} {a}' + ' '.join(out) + ')', ('mv' if tgt.ret == MV else 'int' if tgt.ret == 'Int' else 'str' if tgt.ret == 'List Char' else None)
 
     def default_expr(self, node):
         if isinstance(node, ast.Attribute) and isinstance(node.value, ast.Name) and node.value.id == 'operator' and node.attr == 'xor':
@@ -1114,6 +1151,7 @@ class Tr:
             ps.append('(ops : Ops α)')
         if t.uses_mops:
             ps.append('(ops : MatOps μ)')
+        ps += [f'({p} : {ty})' for p, ty in t.extra_params]
         ps += [f'({p} : {ty})' for p, ty, _ in t.params]
         names = [a.arg for a in self.fn.args.args]
         if (t.env or t.self_name == 'self') and names[:1] == ['self']:
